@@ -298,6 +298,7 @@ func replayMulti(idx int, c *MCase, mode string, out *[]Mismatch) {
 	}
 	r := &replica{firstVal: -1}
 	r.checkGid = true
+	r.leaveGroups = c.M.Op == "GroupByLeave"
 	r.me = gid()
 	base := context.WithValue(context.Background(), rec.KeySub, true)
 	guard := func(step int, f func()) {
